@@ -31,3 +31,6 @@ fn u04_exid_try_from_total_t() {
     check_exid_total::<12>();
 }
 
+
+// (withdrawn: a harness over ExId::{eq, cmp} makes kani-compiler 0.68 panic -- `ActorId: Ord` lowers to the
+// `compare_bytes` intrinsic, intrinsics.rs:243 -- so no obligation is offered for the order of external ids.)
